@@ -219,6 +219,22 @@ def r15_4(ctx):
                     first_tok = True
         r.ob("the pragma is the first whitespace-delimited token after `@jsx`", first_tok, C.mloc(ps, where),
              "split_whitespace().next()" if first_tok else "the whole remainder of the comment is taken: `@jsx h -- note` is then not an identifier and the annotation is ignored")
+    # (d) the annotation is looked for on every line of the comment (block comments usually carry it on a line of its own)
+    if where is not None:
+        from .hirflow import HirIndex
+        idxp = HirIndex(ps)
+        per_line = False
+        for p in idxp.parents(where):
+            if p.get("k") == "Closure":
+                mc = idxp.parent.get(id(p))
+                if mc is not None and mc.get("k") == "MethodCall":
+                    base = mc["recv"]
+                    while strip_transparent(base).get("k") == "MethodCall":
+                        if strip_transparent(base)["method"] in ("lines", "split", "split_terminator", "split_inclusive"):
+                            per_line = True
+                        base = strip_transparent(base)["recv"]
+        r.ob("the annotation is searched on every line of a comment", per_line, C.mloc(ps, where),
+             "the match runs inside an iteration over the comment's lines" if per_line else "only the beginning of each comment is inspected: `/**\\n * @jsx h\\n */` is ignored")
     if where is None:
         r.ob("`@jsx` prefix match is followed by a delimiter test", None, C.mloc(ps, ps), "no strip_prefix(\"@jsx\") found (different matching strategy: not decided)")
     else:
